@@ -153,6 +153,13 @@ def step (s : Sig) (c : Cfg) (op : Json) : R (Cfg × Json) := do
     | some n => wrap (c.delItem s n)
     | none => return (c, errJson)
   | "delslice" => wrap (c.delSlice s (← parseSliceK (← jidx a 1)))
+  | "addtag" => wrap (c.addTag s (← parseKey (← jidx a 1)) (← jnat (← jidx a 2)))
+  | "removetag" => wrap (c.removeTag s (← parseKey (← jidx a 1)) (← jnat (← jidx a 2)))
+  | "cleartags" => wrap (c.clearTags s (← parseKey (← jidx a 1)))
+  | "settags" =>
+    let ts ← (← jlist (← jidx a 2)).mapM jnat
+    wrap (c.setTags s (← parseKey (← jidx a 1)) ts)
+  | "materialize" => wrap (c.materializeDefaults s)
   | "suspend" => return ({ c with tracking := false }, .str "ok")
   | "resume" => return ({ c with tracking := true }, .str "ok")
   | _ => throw "bad-op"
